@@ -1,7 +1,7 @@
 #[cfg(feature = "serde")]
 use serde::{Deserialize, Serialize};
 
-use crate::core::{Error, Method, MovingAverageConstructor, Source, ValueType, OHLCV};
+use crate::core::{Action, Error, Method, MovingAverageConstructor, Source, ValueType, OHLCV};
 use crate::core::{IndicatorConfig, IndicatorInstance, IndicatorResult};
 use crate::helpers::MA;
 use crate::methods::{CrossAbove, CrossUnder, SMA};
@@ -141,8 +141,9 @@ impl<M: MovingAverageConstructor> IndicatorInstance for KeltnerChannelInstance<M
 		let upper = atr.mul_add(self.cfg.sigma, ma);
 		let lower = atr.mul_add(-self.cfg.sigma, ma);
 
-		let signal =
-			self.cross_above.next(&(source, upper)) - self.cross_under.next(&(source, lower));
+		let above: i8 = self.cross_above.next(&(source, upper)).into();
+		let under: i8 = self.cross_under.next(&(source, lower)).into();
+		let signal = Action::from(above - under);
 
 		IndicatorResult::new(&[source, upper, lower], &[signal])
 	}
